@@ -6,7 +6,7 @@ from clingo.ast import AST, ASTType, Sign, parse_string
 
 def parse(text):
     stms = []
-    parse_string(text, stms.append)
+    parse_string(text, stms.append, logger=lambda c, m: None)
     return stms
 
 
@@ -119,3 +119,44 @@ def int_constants(stms):
 
 def has_optimization(stms):
     return any(s.ast_type == ASTType.Minimize for s in stms)
+
+
+def _is_symconst(t):
+    if t.ast_type == ASTType.Function and not t.arguments and not t.external:
+        return t.name
+    if t.ast_type == ASTType.SymbolicTerm and str(t.symbol.type) == "SymbolType.Function" and not t.symbol.arguments:
+        return t.symbol.name
+    return None
+
+
+def _has_arith(t):
+    return any(n.ast_type in (ASTType.BinaryOperation, ASTType.UnaryOperation) for n in walk(t))
+
+
+def symbolic_constants_in_arithmetic(stms, consts=()):
+    """names of symbolic constants (not defined by #const / -c) that are operands of arithmetic or are compared
+    with an arithmetic term: such a program applies arithmetic to non-integers, which every property excludes"""
+    defined = {c.split("=")[0].strip() for c in consts}
+    for s in stms:
+        if s.ast_type == ASTType.Definition:
+            defined.add(s.name)
+    bad = set()
+    for s in stms:
+        for n in walk(s):
+            if n.ast_type == ASTType.BinaryOperation:
+                for o in (n.left, n.right):
+                    c = _is_symconst(o)
+                    if c and c not in defined:
+                        bad.add(c)
+            elif n.ast_type == ASTType.UnaryOperation:
+                c = _is_symconst(n.argument)
+                if c and c not in defined:
+                    bad.add(c)
+            elif n.ast_type == ASTType.Comparison:
+                terms = [n.term] + [g.term for g in n.guards]
+                if any(_has_arith(t) for t in terms):
+                    for t in terms:
+                        c = _is_symconst(t)
+                        if c and c not in defined:
+                            bad.add(c)
+    return bad
